@@ -70,12 +70,13 @@ Fixpoint node_str (n : node) : str :=
   | Group _ ch => ch_open :: join [ch_comma] (map node_str ch) ++ [ch_close]
   end.
 
-(* HedTag.__eq__ / HedGroup.__eq__ (both are real groups here) / list == *)
+(* HedTag.__eq__ (identity, else case-folded short_tag) / HedGroup.__eq__ (both
+   are real groups here) / list == *)
 Fixpoint node_eq (a b : node) {struct a} : bool :=
   match a with
   | Tag i _ s o =>
       match b with
-      | Tag j _ s' o' => Nat.eqb i j || str_eqb s s' || str_eqb (fold o) (fold o')
+      | Tag j _ s' _ => Nat.eqb i j || str_eqb (fold s) (fold s')
       | Group _ _ => false
       end
   | Group i ch =>
@@ -141,29 +142,32 @@ Fixpoint ids_eq (a b : list node) : bool :=
   | _, _ => false
   end.
 
-(* SearchResult.has_same_tags: groups compared with != (HedGroup.__eq__),
-   lengths, then pairwise identity *)
-Definition has_same_tags (r o : sres) : bool :=
-  group_eq (sr_chain r) (sr_chain o) && ids_eq (sr_tags r) (sr_tags o).
+(* SearchResult.has_same_tags: groups, lengths, then pairwise identity.
+   [fx = false]: the code before the fix: commit compared the groups with !=
+   (HedGroup.__eq__, by content); [fx = true]: the repaired code compares them
+   by identity ([is not]). *)
+Definition has_same_tags (fx : bool) (r o : sres) : bool :=
+  (if fx then Nat.eqb (gid r) (gid o) else group_eq (sr_chain r) (sr_chain o))
+  && ids_eq (sr_tags r) (sr_tags o).
 
 (* any(tag is tag2 and tag is not None ...) *)
 Definition overlap (a b : list node) : bool := existsb (fun x => id_in x b) a.
 
 (* ExpressionAnd.merge_and_groups *)
-Definition merge_step (g : sres) (acc : list sres) (o : sres) : list sres :=
+Definition merge_step (fx : bool) (g : sres) (acc : list sres) (o : sres) : list sres :=
   if Nat.eqb (gid g) (gid o) then
     if overlap (sr_tags g) (sr_tags o) then acc
     else
       let m := merge_and_result g o in
-      if existsb (has_same_tags m) acc then acc else acc ++ [m]
+      if existsb (has_same_tags fx m) acc then acc else acc ++ [m]
   else acc.
 
-Definition merge_and_groups (g1 g2 : list sres) : list sres :=
-  fold_left (fun acc g => fold_left (merge_step g) g2 acc) g1 [].
+Definition merge_and_groups (fx : bool) (g1 g2 : list sres) : list sres :=
+  fold_left (fun acc g => fold_left (merge_step fx g) g2 acc) g1 [].
 
 (* ExpressionOr.handle_expr: drop from groups1 what has_same_tags in groups2 *)
-Definition or_groups (g1 g2 : list sres) : list sres :=
-  filter (fun r => negb (existsb (has_same_tags r) g2)) g1 ++ g2.
+Definition or_groups (fx : bool) (g1 g2 : list sres) : list sres :=
+  filter (fun r => negb (existsb (has_same_tags fx r) g2)) g1 ++ g2.
 
 (* Expression._get_parent_groups *)
 Definition parent_groups (rs : list sres) : list sres :=
@@ -276,36 +280,36 @@ Inductive expr : Type :=
 | EExactNone (tok : str) (r : expr)                (* { r : }      optional = "none", left = None *)
 | EExactOpt (tok : str) (l r : expr).              (* { r : l }    optional = "none", left = l *)
 
-Fixpoint handle (e : expr) (exact : bool) (root : node) : list sres :=
+Fixpoint handle (fx : bool) (e : expr) (exact : bool) (root : node) : list sres :=
   match e with
   | ETerm t => term_results t exact root
   | EWild t => wild_results t root
   | EAnd _ l r =>
-      match handle l exact root with
+      match handle fx l exact root with
       | [] => []
-      | g1 => merge_and_groups g1 (handle r exact root)
+      | g1 => merge_and_groups fx g1 (handle fx r exact root)
       end
-  | EOr _ l r => or_groups (handle l exact root) (handle r exact root)
-  | ENeg _ r => negate (handle r exact root) root
-  | EDesc _ r => parent_groups (handle r false root)
-  | EExactAny _ r => parent_groups (handle r true root)
+  | EOr _ l r => or_groups fx (handle fx l exact root) (handle fx r exact root)
+  | ENeg _ r => negate (handle fx r exact root) root
+  | EDesc _ r => parent_groups (handle fx r false root)
+  | EExactAny _ r => parent_groups (handle fx r true root)
   | EExactNone _ r =>
-      let found := handle r true root in
+      let found := handle fx r true root in
       let fl := filter_exact found in
       match fl with
       | _ :: _ => parent_groups fl
       | [] => []
       end
   | EExactOpt _ l r =>
-      let found := handle r true root in
+      let found := handle fx r true root in
       let fl := filter_exact found in
       match fl with
       | _ :: _ => parent_groups fl
-      | [] => parent_groups (filter_exact (merge_and_groups found (handle l true root)))
+      | [] => parent_groups (filter_exact (merge_and_groups fx found (handle fx l true root)))
       end
   end.
 
 Definition nonempty {A} (l : list A) : bool := match l with [] => false | _ :: _ => true end.
 
 (* bool(QueryHandler.search(hed_string)) *)
-Definition matches (e : expr) (root : node) : bool := nonempty (handle e false root).
+Definition matches (fx : bool) (e : expr) (root : node) : bool := nonempty (handle fx e false root).
